@@ -24,7 +24,7 @@ def main():
     which = a[0] if a else "all"
     props = a[1].split(",") if len(a) > 1 else (HERE / "rvmon" / "props" / "REGISTERED").read_text().split()
     results = {}
-    rf = D / "results.json"
+    rf = Path(os.environ.get("RVMON_REF_RESULTS", D / "results.json"))  # a partial re-run keeps its results apart
     if rf.exists():
         results = json.loads(rf.read_text())
     bad = 0
